@@ -276,6 +276,9 @@ static bool run_transition(const Cli& cli, const History& hist, const Op& o, int
     {
         e->transition_monitors(pre, o);
         e->inspect();
+#ifdef HX_FOOTPRINT
+        if (env::viols().empty() && cli.prm.on("C19")) e->footprint_monitors();
+#endif
     }
     std::string canon = in_fault ? std::string("-") : e->canon();
     const Ctx ctx = e->ctx();
